@@ -19,6 +19,7 @@ type Violation struct {
 	Prop   string `json:"prop"`
 	Class  string `json:"class"`
 	Detail string `json:"detail"`
+	Cut    *int64 `json:"cut,omitempty"` // E2: the crash point that produced it (for a minimal replay job)
 }
 
 // Hang describes a deadlock (or livelock) found by the scheduler.
